@@ -5,7 +5,8 @@ from props import c05
 COQ_TARGET = "C06"
 TRUSTED = ["warnings are observed with warnings.catch_warnings(record=True), escaped exceptions with the loop exception handler"]
 ASSUMPTIONS = ["what a frame that passes the gate and names a known model decodes to is C05's subject and not judged here"]
-RULE = ("every length 0..400 with and without the magic (802 datagrams), the captures cut or extended by 1..3 bytes and with each "
+RULE = ("every length 0..400 with and without the magic (802 datagrams), every length with a truthful length field, the captures followed by "
+        "one more byte of every value (newline, NUL, ... included), the captures cut or extended by 1..3 bytes and with each "
         "magic bit flipped, accepted frames with model codes: all known ones, their one-bit neighbours and random ones (thorough: all "
         "65536 codes on each of the three lengths), random byte strings; a sample through a running bridge; "
         "non-trivial = distinct datagrams the Spec judges (outside the gate, or inside with an unknown model code)")
@@ -40,7 +41,17 @@ def cases(tier, rnd):
     cs = []
     for n in range(401):
         cs.append(world.rand_bytes(rnd, n)); cs.append((b"\xfe\xf0" + world.rand_bytes(rnd, n))[:max(n, 0)] if n >= 2 else b"\xfe\xf0"[:n])
+    for n in range(4, 401):             # the magic with a truthful little-endian length field, and with the field of an accepted length
+        cs.append(b"\xfe\xf0" + n.to_bytes(2, "little") + world.rand_bytes(rnd, n - 4))
+        cs.append(b"\xfe\xf0" + rnd.choice([159, 165, 168]).to_bytes(2, "little") + world.rand_bytes(rnd, n - 4))
     caps = c05.captures()
+    for c in caps:
+        for b in range(256):              # one more byte of every value after / before a genuine broadcast
+            cs.append(c + bytes([b]))
+            if tier == "thorough" or b in (0, 10, 13, 32, 254, 255): cs.append(bytes([b]) + c)
+    for L in (159, 165, 168):
+        for b in (0, 10, 13, 32, 255):
+            for k in (1, 2, 3): cs.append(b"\xfe\xf0" + world.rand_bytes(rnd, L - 2) + bytes([b]) * k)
     for c in caps:
         for k in (1, 2, 3): cs.append(c[:-k]); cs.append(c + world.rand_bytes(rnd, k))
         for bit in range(16):
